@@ -951,6 +951,9 @@ class RZILTransformer(Transformer):
             )
 
         for i, (arg, p_type) in enumerate(zip(args, param_types)):
+            if isinstance(arg, Effect) and not isinstance(arg, Pure):
+                # An assignment or another statement. As argument it would never be sequenced.
+                raise NotImplementedError(f"Argument {i} has no value: {arg}")
             if not p_type or isinstance(arg, str):
                 # Those sub-routines are not yet implemented properly and
                 # get handled by Call.py
